@@ -1,5 +1,6 @@
 import Lean.Data.Json
 import Ztr.Model.Filter
+import Ztr.Model.Layers
 /-!
 Line protocol between the Python harness and the executable model: one JSON object per line in,
 one JSON object per line out.  `op` selects the model component.  Unknown or malformed requests are
@@ -37,10 +38,31 @@ def opFilter (j : Json) : Except String Json := do
   let r := Ztr.Filter.accept m (fun _ => dot) ps ()
   return Json.mkObj [("accept", Json.bool r)]
 
+def graphOf (j : Json) : Except String Ztr.Layers.Graph := do
+  let bases ← J.natss! j "bases"
+  let names ← J.natss! j "names"
+  let unit ← J.nat! j "unit"
+  let ba := bases.toArray
+  let na := names.toArray
+  return { bases := fun l => ba.getD l [], name := fun l => na.getD l [1114112 + l], unit := unit }
+
+def jNats (l : List Nat) : Json := Json.arr (l.map (fun n => Json.num (JsonNumber.fromNat n))).toArray
+def jNatss (l : List (List Nat)) : Json := Json.arr (l.map jNats).toArray
+
+/-- `layers`: order_by_bases, gather_layers and layer_sort_key on a layer graph -/
+def opLayers (j : Json) : Except String Json := do
+  let G ← graphOf j
+  let ls ← J.nats! j "ls"
+  return Json.mkObj [
+    ("order", jNats (Ztr.Layers.orderByBases G ls)),
+    ("gather", jNatss (ls.map (Ztr.Layers.gather G))),
+    ("keys", Json.arr ((ls.map (fun l => jNatss (Ztr.Layers.sortKey G l))).toArray))]
+
 def dispatch (j : Json) : Except String Json := do
   let op ← J.str! j "op"
   match op with
   | "filter" => opFilter j
+  | "layers" => opLayers j
   | _ => throw s!"unknown op {op}"
 
 partial def loop (h : IO.FS.Stream) (out : IO.FS.Stream) : IO Unit := do
